@@ -572,7 +572,7 @@ def checkpoint_term(case, cp):
             bits.append("check_get lay %s t %s %s" % (cache, ident, ot))
             bits.append("c19_cache_stale %s t %s" % (cache, ident))
             bits.append("match lay with Some m => c19_layout_path_occupied t (amap m %s) | None => false end" % ident)
-    return "%slet t := %s in let s := %s in let lay := %s in [%s]" % (
+    return "%slet t := %s in let s := %s in let lay := (%s : option (list (bytes * path))) in [%s]" % (
         nm.lets(), cp["tree"], cp["stree"], lay, "; ".join(bits))
 
 
@@ -821,7 +821,7 @@ def execute(ctx, cases, vh, with_crafted=True):
         t, craft_qs = crafted_repo(ctx)
         terms.append(t)
     t0 = time.time()
-    res = common.coq_eval("c19", IMPORTS, terms, batch=max(8, len(terms) // (2 * common.NPROC) + 1))
+    res = common.coq_eval("c19", IMPORTS, terms, batch=max(8, len(terms) // (2 * common.NPROC) + 1), hoist_lets=True)
     common.log("C19: %d Coq terms (%.1f MB) evaluated in %.1fs" % (len(terms), sum(len(t) for t in terms) / 1e6, time.time() - t0))
     known_ids = {k["id"] for k in ctx.known}
     lay_dist, cls_dist, op_dist = {}, {}, {}
